@@ -50,6 +50,22 @@ def _real(body):
 
 
 def check(ctx, rep):
+    # LOF and LOC can exceed 32767: they are returned as single-precision numbers, never as integers
+    for meth in ('lof_', 'loc_'):
+        fn = ctx.fn('pcbasic/basic/devices/files.py:Files.' + meth)
+        rets = [r for r in own_nodes(fn) if isinstance(r, ast.Return) and r.value is not None]
+        rep.ob('lof.wide-enough', 'Files.%s returns self._values.new_single().from_int(...)' % meth,
+               len(rets) == 1 and norm(rets[0].value).startswith('self._values.new_single().from_int('),
+               '%s: Overflow for files / record numbers of 32768 and more' % [norm(r.value) for r in rets], ctx.where(fn))
+    # an item read into a string variable is kept as read: leading blanks (inside the quotes) belong to the string, so the
+    # string case returns before anything is stripped from the word
+    fr_ = ctx.fn('pcbasic/basic/values/values.py:Values.from_repr')
+    flr = ctx.flow(fr_)
+    sret = [r for r in own_nodes(fr_) if isinstance(r, ast.Return) and any(f.pol and f.text == 'typechar == STR' for f in flr.facts(r))]
+    strips = [a for a in own_nodes(fr_) if isinstance(a, ast.Assign) and norm(a.targets[0]) == 'word']
+    rep.ob('input.string-items-kept-verbatim', 'from_repr returns a string item before the word is stripped or upper-cased',
+           len(sret) == 1 and norm(sret[0].value) == 'self.new_string().from_str(word)' and all(sret[0].lineno < a.lineno for a in strips),
+           'INPUT# of " ab" (quoted) comes back as "ab"', ctx.where(fr_))
     from ..sigils import check as _sigils
     _sigils(ctx, rep, ['pcbasic/basic/implementation.py:Implementation._input_file'], 1, from_params=('readvar',))
     # ---- EOF marker --------------------------------------------------------------------------------------
@@ -197,6 +213,10 @@ def variants(ctx):
     def t(dotted, f):
         return lambda tree: f(mu.find_def(tree, dotted))
     return [
+        mu.Variant('lof-returned-as-integer', 'break', 'pcbasic/basic/devices/files.py',
+                   lambda tree: mu.replace_expr(mu.find_def(tree, 'Files.lof_'), mu.text_is('self._values.new_single()'), 'self._values.new_integer()'), expect='lof.wide-enough'),
+        mu.Variant('string-items-stripped-of-leading-blanks', 'break', 'pcbasic/basic/values/values.py',
+                   lambda tree: _strip_first(mu.find_def(tree, 'Values.from_repr')), expect='input.string-items-kept-verbatim'),
         mu.Variant('input-file-types-the-item-from-the-uncompleted-name', 'break', 'pcbasic/basic/implementation.py',
                    lambda tree: mu.replace_expr(mu.find_def(tree, 'Implementation._input_file'), mu.text_is('self.memory.complete_name(name)[-1:]'), 'name[-1:]'),
                    expect='names.sigil-read-from-completed-name'),
@@ -246,3 +266,14 @@ def _keep_nul(f):
             n.test = ast.parse('False', mode='eval').body
             return True
     return False
+
+
+def _strip_first(fn):
+    st = [x for x in fn.body if isinstance(x, ast.Assign) and norm(x.targets[0]) == 'word' and 'lstrip' in norm(x.value)]
+    if len(st) != 1:
+        return False
+    fn.body.remove(st[0])
+    k = 1 if isinstance(fn.body[0], ast.Expr) and isinstance(fn.body[0].value, ast.Constant) else 0
+    fn.body.insert(k, st[0])
+    return True
+
